@@ -466,7 +466,8 @@ def serialize_open_flags(flags: int) -> List[BscOpenFlags]:
 
 def serialize_stat_flags(flags: int) -> List[StatFlags]:
     stat_flags = []
-    for flag in list(StatFlags):
+    # Iterating the Flag class itself skips multi-bit members (S_IFBLK, S_IFLNK, S_IFSOCK) since Python 3.11.
+    for flag in StatFlags.__members__.values():
         if flag.value & S_IFMT:
             if flags & S_IFMT == flag.value:
                 stat_flags.append(flag)
